@@ -1,50 +1,15 @@
-from ..engine import Case
-
-OPS = {'ADD': 1, 'GET': 2, 'SET': 3, 'POP': 4, 'REMOVE': 5, 'REVERSE': 6, 'RESIZE': 7, 'CLEAR': 8, 'TOARRAY': 9, 'WALK': 10, 'SIZE': 11, 'CTOR': 12, 'GROW2': 13}
-FUNCS = {'ADD': ['qvector_addat', 'qvector_addfirst', 'qvector_addlast', 'qvector_resize'], 'GET': ['qvector_getat', 'qvector_getfirst', 'qvector_getlast', 'get_at'],
-         'SET': ['qvector_setat', 'qvector_setfirst', 'qvector_setlast'], 'POP': ['qvector_popat', 'qvector_popfirst', 'qvector_poplast', 'remove_at'],
-         'REMOVE': ['qvector_removeat', 'qvector_removefirst', 'qvector_removelast', 'remove_at'], 'REVERSE': ['qvector_reverse'], 'RESIZE': ['qvector_resize', 'qvector_addat'],
-         'CLEAR': ['qvector_clear'], 'TOARRAY': ['qvector_toarray'], 'WALK': ['qvector_getnext'], 'SIZE': ['qvector_size'], 'CTOR': ['qvector', 'qvector_free'], 'GROW2': ['qvector_addat', 'qvector_resize']}
-
-
-def vec_cases(tier, prefix='c10', extra_defs=None, checks='func', leak=False, ops=None, safety_owner='C11', sizes=None, maxes=None, timeout=600):
-    out = []
-    sizes = sizes or ([1, 3] if tier == 'quick' else [1, 2, 3, 4, 7, 8, 16, 64])
-    maxes = maxes if maxes is not None else ([0, 1, 2, 3] if tier == 'quick' else [0, 1, 2, 3, 4, 5])
-    for op in (ops or [o for o in OPS if o != 'GROW2']):
-        for osz in sizes:
-            ms = [0] if op == 'CTOR' else maxes
-            if osz > 8 and op not in ('ADD', 'POP', 'REMOVE', 'RESIZE', 'GET'):
-                continue
-            for mx in ms:
-                if osz > 8 and mx > 3:
-                    continue
-                variants = [({}, '')]
-                if op in ('ADD', 'GROW2', 'RESIZE', 'CTOR', 'CLEAR'):
-                    variants = [({'VF_POLICY': 0}, '.exact'), ({'VF_POLICY': 1, 'VF_INITNUM': 1}, '.lin1'), ({'VF_POLICY': 1, 'VF_INITNUM': 2}, '.lin2'), ({'VF_POLICY': 2}, '.dbl')]
-                    if tier == 'thorough':
-                        variants.append(({'VF_POLICY': 1, 'VF_INITNUM': 3}, '.lin3'))
-                if op == 'RESIZE':
-                    variants = [(dict(v, VF_NEWMAX=nm), '%s.to%d' % (sfx, nm)) for (v, sfx) in variants for nm in range(0, mx + 3)]
-                for (vd, sfx) in variants:
-                    d = {'VF_OP': OPS[op], 'VF_MAX': mx, 'VF_OBJSIZE': osz}
-                    d.update(vd)
-                    d.update(extra_defs or {})
-                    out.append(Case('%s.vec.%s.os%d.max%d%s' % (prefix, op, osz, mx, sfx), 'vec.c', d, unwind=max(mx + 8, osz, 8) + 3,
-                                    checks=checks, leak=leak, timeout=timeout, funcs=['qvector'] + FUNCS[op], safety_owner=safety_owner,
-                                    desc='vector %s from any state with capacity %d, element size %d%s: num<=max, contents, index (all int), value symbolic' % (op, mx, osz, sfx)))
-    return out
+from ..fam import vector
 
 
 def cases(tier):
-    return vec_cases(tier)
+    return vector.cases(tier, 'func')
 
 
 def meta(tier):
-    return {'level': 'model_checking',
-            'bounds': 'capacity %s, element sizes %s; index over the whole int range; resize target <= capacity+3' % (('0..3', '{1,3}') if tier == 'quick' else ('0..5', '{1,2,3,4,7,8,16,64}')),
-            'outside': ['capacities above the bound', 'element sizes not listed', 'histories are covered only through the inductive step: base (constructor) + one step from every valid state within the capacity bound'],
-            'stubs': ['allocator shim (never fails in this configuration)', 'lock model (non-thread-safe configuration: no lock object)'],
-            'assumptions': ['every state with num<=max, data!=NULL iff max>0, any policy, 1<=initnum<=3 is reachable (constructor + addlast + resize)', 'malloc does not fail here (C15 covers failure)'],
-            'explanation': 'Inductive step by bounded symbolic execution of the real qvector.c: pre-state = every valid vector state for a fixed capacity/element size (num, bytes, policy symbolic), one API call with symbolic index/value/flags, '
+    i = vector.info(tier)
+    return {'level': 'model_checking', 'bounds': i['bounds'],
+            'outside': ['capacities above the bound', 'element sizes not listed', 'histories are covered through the inductive argument only: base (constructor) + one step from every valid state within the capacity bound'],
+            'stubs': i['stubs'],
+            'assumptions': [i['prestate'], 'malloc does not fail here (C15 covers failure)'],
+            'explanation': 'Inductive step by bounded symbolic execution of the real qvector.c: pre-state = every valid vector state for a fixed capacity/element size (num, bytes symbolic), one API call with symbolic index/value/flags, '
                            'post = equality with an ideal array maintained by the harness, refused calls leave contents unchanged; constructor base case. Together they cover operation histories of any length inside the capacity bound.'}
